@@ -11,6 +11,7 @@ package c27
 
 import (
 	"fmt"
+	"os"
 	"sort"
 	"strconv"
 	"strings"
@@ -365,5 +366,17 @@ var spec = core.Spec[Case]{
 	},
 }
 
-func TestProp(t *testing.T)   { core.RunProp(t, spec) }
-func TestReplay(t *testing.T) { core.Replay(t, spec) }
+func TestProp(t *testing.T) { core.RunProp(t, spec) }
+func TestReplay(t *testing.T) {
+	// a concurrent-mode case (conc_test.go) is recognised by its "adders" field
+	if b, err := os.ReadFile(os.Getenv("VERIF_REPLAY")); err == nil && strings.Contains(string(b), "\"adders\"") {
+		s := concSpec
+		s.Check = func(c ConcCase) *core.Violation {
+			c.Rounds *= 50 // the window is narrow
+			return checkConc(c)
+		}
+		core.Replay(t, s)
+		return
+	}
+	core.Replay(t, spec)
+}
